@@ -35,7 +35,9 @@
 (*  P3 handles opened after a block snapshot do not outlive a revert to it *)
 (*     (they are transaction-scoped);                                      *)
 (*  P4 Update and Commit invalidate all snapshots (tries are not undone);  *)
-(*  P5 Commit directly follows Update.                                     *)
+(*  P5 Update is directly followed by Commit or by giving up the block     *)
+(*     state (one Update per block; pkg/trie.Update on a trie with         *)
+(*     uncommitted nodes is not idempotent).                               *)
 (***************************************************************************)
 EXTENDS Integers, Sequences, FiniteSets, TLC, Util
 
@@ -312,13 +314,16 @@ Reopen ==
   /\ UNCHANGED <<committed, ncommit, refCA, refCS>>
   /\ lastAct' = [name |-> "Reopen"]
 
+\* P5: after Update only Commit or giving up the block state
 Next ==
-  \/ \E a \in AllAccts, v \in Vals : PutAcct(a, v)
-  \/ \E c \in Ctrs : Open(c) \/ Stage(c) \/ Drop(c) \/ SnapHandle(c)
-  \/ \E c \in Ctrs, k \in Keys, v \in Vals \cup {None} : Write(c, k, v)
-  \/ SnapBlock
-  \/ \E i \in 1..Len(snaps) : Rollback(i) \/ Release(i)
-  \/ Update \/ Commit \/ Reopen
+  \/ /\ phase # "updated"
+     /\ \/ \E a \in AllAccts, v \in Vals : PutAcct(a, v)
+        \/ \E c \in Ctrs : Open(c) \/ Stage(c) \/ Drop(c) \/ SnapHandle(c)
+        \/ \E c \in Ctrs, k \in Keys, v \in Vals \cup {None} : Write(c, k, v)
+        \/ SnapBlock
+        \/ \E i \in 1..Len(snaps) : Rollback(i) \/ Release(i)
+        \/ Update
+  \/ Commit \/ Reopen
 
 Spec == Init /\ [][Next]_vars
 
@@ -328,9 +333,6 @@ StateConstraint ==
   /\ \A c \in Ctrs : Len(cache[c].buf.ent) <= MaxSBuf /\ Len(hd[c].st.buf.ent) <= MaxSBuf
   /\ Len(abuf.ent) + SumSet([c \in Ctrs |-> Len(cache[c].buf.ent) + Len(hd[c].st.buf.ent)], Ctrs) <= MaxEnt
   /\ ncommit = MaxCommits => phase = "committed"     \* after the last commit only Reopen is explored
-
-\* optional action constraint (small configurations): one Update per block, directly before Commit
-UpdateThenCommit == phase = "updated" => lastAct'.name \in {"Commit", "Reopen"}
 
 \* ------------------------------------------------------------------ properties
 Positions(b, k) == {i \in 1..Len(b.ent) : b.ent[i].k = k}
